@@ -1,2 +1,5 @@
 import SdxModel.Scalar
 import SdxModel.Interval
+import SdxModel.Hash
+import SdxModel.Anonymizer
+import SdxModel.Counters
